@@ -188,7 +188,7 @@ fn new_member(rng: &mut impl Rng, family: u32, ops: &mut Vec<Value>) -> Member {
 
 fn random_sequence(env: &Env, k: u64, d: &mut Delta) {
     let mut rng = scenario_rng("C07", env.seed, k);
-    let per_scenario = env.tier.pick(320, 1250);
+    let per_scenario = env.tier.pick3(320, 1250, 5);
     for case in 0..per_scenario {
         d.evaluations += 1;
         let mut ops: Vec<Value> = vec![];
@@ -572,7 +572,7 @@ fn rec(
 fn run(env: &Env, k: u64, d: &mut Delta) {
     let total = (DEF.total)(env.tier);
     // the last 16 scenarios are the exhaustive small-scope sweep
-    if k + 16 >= total {
+    if k + 16 >= total && env.tier != Tier::Tiny {
         exhaustive(env, k + 16 - total, d);
     } else {
         random_sequence(env, k, d);
